@@ -9,6 +9,7 @@ after every operation, every link of the real pointer structure checked).
 -/
 import SamVerif.Proofs.Hotkey
 import SamVerif.Gen.Hotkey
+import SamVerif.Gen.Filters
 namespace SamVerif.Props.C19
 open SamVerif.Hotkey SamVerif.Proofs.Hotkey
 
@@ -641,6 +642,19 @@ theorem code_matches_model :
       "c.lut = nowInMinute()"] := by
   refine ⟨rfl, rfl, rfl, rfl, rfl, rfl, rfl, rfl, rfl, rfl, rfl, rfl, rfl⟩
 
+/-- **The code the model was written against.** The statements of the modelled functions,
+regenerated from the current source on every run, are the ones the model was written against;
+any edit to one of them makes this obligation fail and starts a search for a failing input. -/
+theorem filters_match_model :
+    Gen.Filters.hotKeyDo =
+      ["key := f.extractKey(cmd, req.Body())",
+      "if len(key) > 0 && f.counter != nil { f.counter.Incr(key) }",
+      "return Continue"] ∧
+    Gen.Filters.hotKeyExtractKey =
+      ["if len(v.Array) <= 1 { return \"\" }",
+      "switch cmd { case \"eval\", \"cluster\", \"auth\", \"scan\": return \"\" default: return string(v.Array[1].Text) }"] := by
+  refine ⟨rfl, rfl⟩
+
 end SamVerif.Props.C19
 
 #print axioms SamVerif.Props.C19.incr_inv
@@ -657,3 +671,4 @@ end SamVerif.Props.C19
 #print axioms SamVerif.Props.C19.insert_names_nodup
 #print axioms SamVerif.Props.C19.evictStale_names
 #print axioms SamVerif.Props.C19.report_well_formed
+#print axioms SamVerif.Props.C19.filters_match_model
